@@ -15,11 +15,13 @@ Next == /\ l <= Len(Trace) /\ l' = l + 1
                                  LET m2 == RunToMark(m, Len(m.out))
                                      ok == ~m2.halted /\ m2.out[Len(m2.out)] = [id |-> e.id, v |-> e.v] IN
                                  /\ m' = m2 /\ failed' = ~ok /\ seen' = seen + 1
-                                 /\ bad' = IF ok THEN bad ELSE Append(bad, [l |-> l, t |-> e.t, i |-> e.id, why |-> "mark"])
+                                 /\ bad' = IF ok THEN bad ELSE Append(bad, [l |-> l, t |-> e.t, i |-> e.id, why |-> "mark",
+                                                                           exp |-> IF m2.halted THEN [halted |-> m2.val] ELSE [mark |-> m2.out[Len(m2.out)]]])
              [] e.ev = "end" -> IF failed THEN UNCHANGED <<m, bad, failed, seen>> ELSE
                                  LET m2 == RunToMark(m, Len(m.out))
                                      ok == m2.halted /\ Outcome(m2) = e.v IN
                                  /\ m' = m2 /\ failed' = ~ok /\ seen' = seen + 1
-                                 /\ bad' = IF ok THEN bad ELSE Append(bad, [l |-> l, t |-> e.t, i |-> 0, why |-> "end"])
+                                 /\ bad' = IF ok THEN bad ELSE Append(bad, [l |-> l, t |-> e.t, i |-> 0, why |-> "end",
+                                                                           exp |-> IF m2.halted THEN [halted |-> m2.val] ELSE [mark |-> m2.out[Len(m2.out)]]])
 Done == (l = Len(Trace) + 1) => PrintT("RESULT" \o ToJson([bad |-> bad, checked |-> seen]))
 =============================================================================
